@@ -14,6 +14,22 @@ CLAIMED = {
         note='Trusted: Kani 0.68 + CBMC 6.11 model of rustc dev-profile codegen; the oracle (i64 rem_euclid) in /verif/hooks/falcon_field.rs. Operands are assumed canonical (<q), '
              'which is what every constructor establishes and c12_new_all_i16 checks.',
         design='DESIGN.md §4 C12'),
+    'C07': dict(
+        engine='M (mirsym over rustc MIR + z3)',
+        technique='path-wise symbolic execution of the MIR of compress/decompress with z3 (QF_BV): every feasible path of the real code, buffers and coefficients symbolic; per-path bit-vector equality against Algorithms 17/18; counterexamples replayed natively',
+        text='decompress is explored on fully symbolic buffers (all bytes) for small (n, L), on structured buffers that reach 95/256/512-zero unary runs, and (thorough) at the production sizes with a '
+             'concrete prefix and symbolic tail; on every accepting path the input must be bit-for-bit the reference encoding of the returned vector (canonicity) and every MIR assert / library panic '
+             'site must be unreachable. compress is run for every unary structure in the stated sets with signs and low bits symbolic, compared bit-for-bit with Algorithm 17, and its symbolic output '
+             'is fed to the real decompress (round trip). Verdicts are solver verdicts over all inputs inside the bounds, not samples.',
+        note='Bounds in evidence.bounds; trusted: mirsym library summaries (BitVec/Vec/iterators/div_mod_floor), z3, the nightly MIR dump standing for the stable build. Oracle written from the specification in vf/spec.py.',
+        design='DESIGN.md §4 C07'),
+    'C14': dict(
+        engine='M (mirsym over rustc MIR + z3)',
+        technique='path-wise symbolic execution of the MIR of hash_to_point with the SHAKE-256 reader stubbed by a fully symbolic byte stream; per-path equality with Algorithm 3 decided by z3; counterexamples replayed natively on a message found by search',
+        text='Every accept/reject interleaving of the rejection loop inside the bound (n <= 8 quick / 16 thorough, <= 1..4 rejections) is explored with ALL XOF streams symbolic; on each path the returned '
+             'coefficients, their number and the number of consumed chunks must equal Algorithm 3 on that stream, every coefficient < q, and the XOF must have absorbed exactly the input once.',
+        note='SHAKE-256 (sha3 crate) is trusted: its output is modelled as arbitrary bytes (sound over-approximation). n = 512/1024 differ only in loop trip count and are outside the bound.',
+        design='DESIGN.md §4 C14'),
 }
 
 NOT_APPLICABLE = {
@@ -25,7 +41,7 @@ NOT_APPLICABLE = {
     'C16': 'needs the PQClean reference implementation as oracle (absent, C behind FFI) and an end-to-end sign/verify exchange (DESIGN §5)',
     'C17': 'float quotient (FFT, division, rounding) + modular/BigInt algebra at n up to 1024; even n=2 of the modular half is beyond the SAT back end (DESIGN §5)',
 }
-PENDING = {'C02': 'check not built yet in this revision (planned, see DESIGN §4); not claimed until it runs end to end', 'C03': 'check not built yet in this revision (planned, see DESIGN §4); not claimed until it runs end to end', 'C05': 'check not built yet in this revision (planned, see DESIGN §4); not claimed until it runs end to end', 'C06': 'check not built yet in this revision (planned, see DESIGN §4); not claimed until it runs end to end', 'C07': 'check not built yet in this revision (planned, see DESIGN §4); not claimed until it runs end to end', 'C09': 'check not built yet in this revision (planned, see DESIGN §4); not claimed until it runs end to end', 'C11': 'check not built yet in this revision (planned, see DESIGN §4); not claimed until it runs end to end', 'C13': 'check not built yet in this revision (planned, see DESIGN §4); not claimed until it runs end to end', 'C14': 'check not built yet in this revision (planned, see DESIGN §4); not claimed until it runs end to end'}
+PENDING = {k: 'check not built yet in this revision (planned, see DESIGN §4); not claimed until it runs end to end' for k in ['C02', 'C03', 'C05', 'C06', 'C09', 'C11', 'C13']}
 
 
 def build():
@@ -73,6 +89,7 @@ def build():
 
 
 HOOK_COMMITS = ['7e95cf1']
+FIX_COMMITS = ['56bfc38', '44525a6', '714f854', 'b655c1b']
 
 if __name__ == '__main__':
     json.dump(build(), open('/verif/MANIFEST.json', 'w'), indent=1)
